@@ -749,6 +749,8 @@ fn main() {
     let mut file_names = Vec::new();
     let mut mem_entries: Vec<String> = Vec::new();
     let mut impl_bodies: Vec<String> = Vec::new();
+    let mut trait_impl_methods: Vec<String> = Vec::new(); // (type, trait, methods written out in the impl)
+    let mut trait_defs: Vec<String> = Vec::new();         // (trait, method, body tokens; "" for a required method)
     let mut mod_decls: Vec<String> = Vec::new();
     let mut parse_errors: Vec<String> = Vec::new();
 
@@ -806,6 +808,17 @@ fn main() {
                 }
             }
         }
+        // trait definitions: which methods are provided, and with what body
+        for it in &file.items {
+            if let syn::Item::Trait(t) = it {
+                for ti in &t.items {
+                    if let syn::TraitItem::Fn(f) = ti {
+                        let body = f.default.as_ref().map(|b| norm_tokens(&b.to_token_stream())).unwrap_or_default();
+                        trait_defs.push(format!("({}, {}, {})", coq_str(&t.ident.to_string()), coq_str(&f.sig.ident.to_string()), coq_str(&body)));
+                    }
+                }
+            }
+        }
         // ladders, dispatch tables, selected bodies, memory signature
         for it in &file.items {
             if let syn::Item::Impl(im) = it {
@@ -814,6 +827,10 @@ fn main() {
                 }
                 let ty = norm_tokens(&im.self_ty.to_token_stream());
                 let tr = im.trait_.as_ref().map(|(_, p, _)| norm_tokens(&p.to_token_stream())).unwrap_or_default();
+                if !tr.is_empty() {
+                    let ms: Vec<String> = im.items.iter().filter_map(|ii| if let syn::ImplItem::Fn(f) = ii { Some(coq_str(&f.sig.ident.to_string())) } else { None }).collect();
+                    trait_impl_methods.push(format!("({}, {}, {})", coq_str(&ty), coq_str(&tr), coq_list(&ms)));
+                }
                 for ii in &im.items {
                     if let syn::ImplItem::Fn(f) = ii {
                         let name = f.sig.ident.to_string();
@@ -880,6 +897,8 @@ fn main() {
     let _ = writeln!(facts_v, "Definition all_files : list file_facts := {}.\n", coq_list(&file_names));
     let _ = writeln!(facts_v, "Definition mod_decls : list (string * string * cpred) := {}.\n", coq_list(&mod_decls));
     let _ = writeln!(facts_v, "Definition impl_bodies : list (string * string * string * string) := {}.\n", coq_list(&impl_bodies));
+    let _ = writeln!(facts_v, "Definition trait_impl_methods : list (string * string * list string) := {}.\n", coq_list(&trait_impl_methods));
+    let _ = writeln!(facts_v, "Definition trait_defs : list (string * string * string) := {}.\n", coq_list(&trait_defs));
     let _ = writeln!(facts_v, "Definition parse_errors : list string := {}.\n", coq_list(&parse_errors.iter().map(|s| coq_str(s)).collect::<Vec<_>>()));
 
     // Cargo.toml: [features], [dependencies] (non-dev)
